@@ -6,6 +6,7 @@ import os
 import vlib
 
 PROPS = "Properties_C18"
+NDEBUG_TOO = True     # the library\'s normal build compiles assertions out: the same cases run against that build too
 EXTRA_PROPS = ["Properties_errno"]   # errno -> status table regenerated from errno_status.c on every run
 
 
